@@ -512,11 +512,23 @@ Definition state_ok_b (t : ent) (runno captured : N) (w : world) : bool :=
   match alookup t (cbs w) with
   | Some cb => N.eqb (cb_runno cb) runno && N.eqb (cb_captured cb) captured
   | None => false end.
-Definition body_guard (t : ent) (runno captured : N) (w : world) : bool := fresh_claim_b t w && state_ok_b t runno captured w.
+(* ... and a `once` wrapper runs its inner system only while marked taken, and only for its first run *)
+Definition once_ok_b (t : ent) (w : world) : bool :=
+  match alookup t (cbs w) with
+  | Some cb => match cb_once cb with Some _ => cb_taken cb && N.eqb (cb_runno cb) 0 | None => true end
+  | None => true end.
+Definition body_guard (t : ent) (runno captured : N) (w : world) : bool :=
+  fresh_claim_b t w && state_ok_b t runno captured w && once_ok_b t w.
+(* how SystemCommandCallback::run marks the record: a plain callback is never marked, a once wrapper is marked when its
+   inner system is taken, which requires that it was not taken before *)
+Definition bump_ok (cb : cbrec) (b : bool) : bool :=
+  match cb_once cb with None => negb b | Some _ => b && negb (cb_taken cb) end.
 (* first statements of every harness body: sample all readers, log the run; an X body bumps its entity's local data *)
+Definition is_once_rec (t : ent) (w : world) : bool :=
+  match alookup t (cbs w) with Some cb => match cb_once cb with Some _ => true | None => false end | None => false end.
 Definition body_sample (sd : sysdecl) (t : ent) (runno captured : N) (w : world) : world :=
   let (sm, w) := sample_readers sd (xsys_of t) w in
-  let w := note_run t runno captured (emit (EvRun t runno captured sm) w) in
+  let w := note_run t runno captured (is_once_rec t w) (emit (EvRun t runno captured sm) w) in
   match sm_l sm, xsys_of t with
   | Some (src, Some v), Some (x, _) => w <| xlocals := aset2 x src (v + 1) (xlocals w) |>
   | _, _ => w end.
